@@ -171,8 +171,11 @@ def extra_pool(ctx):
     return {"pool_audit_diagnostic": out.strip()[-200:]}
 
 def extra_gc(ctx):
+    import vruntime
     rc, out = sh([ctx.build.harness, "layouts"], 60)
-    return {"layout_lines": len(out.strip().split("\n"))}
+    res = {"layout_lines": len(out.strip().split("\n"))}
+    res.update(vruntime.gcstress(ctx))     # value types x key kinds under GOGC=1 + forced collections on the checkptr build
+    return res
 
 # ------------------------------------------------------------------ C19
 
